@@ -31,6 +31,8 @@
 (* from the first to the last changed element of that row (so everything   *)
 (* outside the spans kept its value and the spans give the new values).    *)
 (* guard: number of guard elements before/after the buffer that changed.   *)
+(* The font data fd and the palette pal of a case are not copied into the  *)
+(* monitor state: Mon takes the init event of the current case as `big`.   *)
 (*                                                                         *)
 (* Pixel values: a colour index is packed with the colour masks ci =       *)
 (* <<rpos, rsize, gpos, gsize, bpos, bsize>>.  Only bits covered by a mask *)
@@ -136,8 +138,10 @@ WriteCheck(g, old, got, e) ==
           ELSE <<"Write stored the wrong text cell", "cell", X, Y, "got", v, "want", want>>
      ELSE
      LET FG == Pack(g, e.fg)  BG == Pack(g, e.bg)
-         PxOK(rr, px) == LET col == IF GlyphBit(g, e.ch, rr, px) THEN FG ELSE BG IN
-                         \A k \in 1..g.Bpp : ElemOK(got[r0 + rr + 1][c0 + px * g.Bpp + k], col[k], g.mask[k], g.full)
+         PxOK(rr, px) == LET col == IF GlyphBit(g, e.ch, rr, px) THEN FG ELSE BG
+                             a == c0 + px * g.Bpp
+                         IN \/ SubSeq(got[r0 + rr + 1], a + 1, a + g.Bpp) = col          \* exact equality first (native)
+                            \/ (~g.full /\ \A k \in 1..g.Bpp : ElemOK(got[r0 + rr + 1][a + k], col[k], g.mask[k], FALSE))
      IN IF \A rr \in 0..(g.gh - 1) : \A px \in 0..(g.gw - 1) : PxOK(rr, px) THEN <<>>
         ELSE LET B == {p \in (0..(g.gh - 1)) \X (0..(g.gw - 1)) : ~PxOK(p[1], p[2])}
                  p == CHOOSE q \in B : \A o \in B : q[1] < o[1] \/ (q[1] = o[1] /\ q[2] <= o[2])
@@ -164,8 +168,9 @@ FillCheck(g, old, got, e) ==
       out == Outside(g, e.d, r0, r1, c0, c1, "Fill changed elements outside the clipped rectangle")
       BG == IF IsFb(g) THEN Pack(g, e.bg) ELSE <<VgaCell(g.clear, e.fg, e.bg)>>
       seg == [i \in 1..(c1 - c0 + 1) |-> BG[((i - 1) % g.Bpp) + 1]]
-      RowOK(r) == IF g.full THEN SubSeq(got[r + 1], c0 + 1, c1 + 1) = seg
-                  ELSE \A i \in 1..(c1 - c0 + 1) : ElemOK(got[r + 1][c0 + i], seg[i], g.mask[((i - 1) % g.Bpp) + 1], FALSE)
+      \* (exact equality first: it is the common case and a native comparison)
+      RowOK(r) == \/ SubSeq(got[r + 1], c0 + 1, c1 + 1) = seg
+                  \/ (~g.full /\ \A i \in 1..(c1 - c0 + 1) : ElemOK(got[r + 1][c0 + i], seg[i], g.mask[((i - 1) % g.Bpp) + 1], FALSE))
   IN IF out # <<>> THEN out
      ELSE IF \A r \in r0..r1 : RowOK(r) THEN <<>>
      ELSE LET r == CHOOSE q \in r0..r1 : ~RowOK(q) /\ \A o \in r0..r1 : (~RowOK(o)) => q <= o
